@@ -974,6 +974,18 @@ func (h *Hub) processUnregister(client HandlerClient) Session {
 	return session
 }
 
+// statsMessageTypeLabel returns the label to count a client message under. The
+// type is controlled by the client (any bytes, not necessarily valid UTF-8, for
+// which prometheus panics), so only the known types are used as label values.
+func statsMessageTypeLabel(messageType string) string {
+	switch messageType {
+	case "hello", "bye", "room", "message", "control", "internal", "transient":
+		return messageType
+	default:
+		return "unknown"
+	}
+}
+
 func (h *Hub) processMessage(client HandlerClient, data []byte) {
 	var message ClientMessage
 	if err := message.UnmarshalJSON(data); err != nil {
@@ -1006,7 +1018,7 @@ func (h *Hub) processMessage(client HandlerClient, data []byte) {
 		return
 	}
 
-	statsMessagesTotal.WithLabelValues(message.Type).Inc()
+	statsMessagesTotal.WithLabelValues(statsMessageTypeLabel(message.Type)).Inc()
 
 	session := client.GetSession()
 	if session == nil {
